@@ -104,9 +104,13 @@ class HippoClientProtocol(asyncio.DatagramProtocol):
             region.circuit.send_acks((message.packet_id,))
             should_handle = region.circuit.track_reliable(message.packet_id)
 
+        # Don't let subscribers at either level see retransmissions of something
+        # we've already handled.
+        if not should_handle:
+            return
+
         try:
-            if should_handle:
-                self.session.message_handler.handle(message)
+            self.session.message_handler.handle(message)
         except:
             LOG.exception("Failed in region message handler")
         region.message_handler.handle(message)
